@@ -83,3 +83,24 @@ pub mod c04 {
         pub multiplier: f32,
     }
 }
+
+// ---- C19: unwrap on input-derived data; a loop without a terminating driver
+pub fn c19_parse(text: &str) -> u32 {
+    let first = text.lines().next().unwrap();
+    let mut n: u32 = first.parse().unwrap();
+    let mut steps = 0u32;
+    while n != 1 {
+        n = if n % 2 == 0 { n / 2 } else { n.wrapping_mul(3).wrapping_add(1) };
+        steps = steps.wrapping_add(1);
+    }
+    steps
+}
+
+// ---- C14: unguarded float division; panic-capable code under a held lock
+static TABLE: std::sync::Mutex<Vec<f32>> = std::sync::Mutex::new(Vec::new());
+pub fn c14_compute(areas: &[f32], idx: usize) -> f32 {
+    let total: f32 = areas.iter().sum();
+    let guard = TABLE.lock().unwrap();
+    let v = guard[idx];
+    v / total
+}
